@@ -12,7 +12,7 @@ from . import core, gem, trajsc
 from .core import Outcome, PropertySpec
 
 PID = 'C13'
-MODULES = ['GProofs.C01', 'GProofs.C15', 'GProofs.C13', 'GProofs.C13Rigid']
+MODULES = ['GProofs.C01', 'GProofs.C15', 'GProofs.C13', 'GProofs.C13Rigid', 'GProofs.C13Sel']
 
 
 def gen_case(rng):
@@ -110,7 +110,13 @@ def check_case(out: Outcome, case, tag):
             out.fail('property', 'selection-forms-equivalent', {**case, 'form': nm}, expected=pos.tolist(),
                      observed=np.array(r[1]).tolist(), note=f'species given as {case["kind"]}')
     # correspondence with the Lean model: drift vector and corrected positions
-    mask = [s in fixed for s in species]
+    def selmask(mode, names):
+        r = core.drive1(f'selmask {mode} {len(names)} ' + ' '.join(names) + f' {len(species)} ' + ' '.join(species)).split()
+        return [t == '1' for t in r[1:]]
+    mask = selmask('fixed', list(fixed))
+    # GModel.Labels: the reference atoms by whole-symbol comparison; floating = complement (theorem floating_eq_fixed_others)
+    if mask != [s in fixed for s in species] or selmask('floating', [floating]) != mask:
+        out.fail('correspondence', 'model-selection', case, expected=[s in fixed for s in species], observed=mask)
     ops = [('Y', 0, mask), ('X', 0, mask), ('P', 1), ('X', 0, []), ('P', 2), ('Y', 0, [])]
     impl, _, _ = trajsc.run_impl(lat, [coords], [[(Element if case['kind'] == 'Element' else Species)(s) for s in species]], ops)
     model = trajsc.parse_model(core.drive1(trajsc.model_line(lat, [coords], ops)))
